@@ -15,7 +15,9 @@ The grammar is written from IEEE 1800-2017 Annex A, not from the translator:
   for loops `for ( [int unsigned] v = e ; e ; v = e | v += e | v -= e )`, blocking and non-blocking
   assignments to a variable lvalue;
 * module items: port lists (ANSI style), variable declarations (`logic`, typedef names, `integer`) with
-  packed and unpacked dimensions, `localparam` with expression / assignment-pattern initialisers,
+  packed and unpacked dimensions (`integer x;` is a variable of a SIGNED 32-bit type, IEEE 1800-2017 Table 6-8: its
+  name is recorded in the module's `signed` list and travels to the Lean semantics, which evaluates expressions
+  whose operands are all signed as signed, 11.8.1; `>>>` is kept apart from `>>`), `localparam` with expression / assignment-pattern initialisers,
   `always_comb`, `always_ff @(posedge id)`, `assign`, module instances with named port connections;
   `typedef struct packed { … } name;` at file level.
 
@@ -95,7 +97,7 @@ BIN_LEVELS = [
   {'&': 'band'},
   {'==': 'eq', '!=': 'ne', '===': 'eq', '!==': 'ne'},
   {'<': 'lt', '<=': 'le', '>': 'gt', '>=': 'ge'},
-  {'<<': 'shl', '>>': 'shr', '<<<': 'shl', '>>>': 'shr'},     # >>> of an unsigned operand is a logical shift
+  {'<<': 'shl', '>>': 'shr', '<<<': 'shl', '>>>': 'ashr'},    # >>> is arithmetic when the expression type is signed
   {'+': 'add', '-': 'sub'},
   {'*': 'mul', '/': 'div', '%': 'mod'},
   {'**': 'pow'},
@@ -356,7 +358,7 @@ class Parser:
   def module(self):
     self.expect('module')
     name = self.ident()
-    m = {'name': name, 'ports': [], 'decls': [], 'params': [], 'items': [], 'line': self.t.line}
+    m = {'name': name, 'ports': [], 'decls': [], 'params': [], 'items': [], 'line': self.t.line, 'signed': []}
     names = set()
     def declare(x):
       if x in names: self.err(f'{x} declared twice')
@@ -385,6 +387,7 @@ class Parser:
       elif self.accept('integer'):
         x = self.ident(); declare(x); self.expect(';')
         m['decls'].append((x, ('vec', 32), []))
+        m['signed'].append(x)            # Table 6-8: integer = 4-state (here 2-state) signed 32-bit
       elif self.at('logic') or (self.t.kind == 'id' and self.t.text in self.typedefs and self.peek().kind in ('id',) ) \
            or (self.t.kind == 'id' and self.t.text in self.typedefs and self.peek().text == '['):
         ty = self.data_type()
@@ -508,7 +511,8 @@ def flatten_pattern(p, dims, line=None):
   for it in items: out += flatten_pattern(it, dims[1:], line)
   return out
 
-def module_sexp(m):
+def module_sexp(m, unsigned_view=None):
+  """unsigned_view: names of signed variables to be read as unsigned vectors (diagnosis only: c03_util.run_batch)"""
   ports = tuple((d, x, ty_sexp(ty), tuple(dims)) for d, x, ty, dims in m['ports'])
   decls = tuple((x, ty_sexp(ty), tuple(dims)) for x, ty, dims in m['decls'])
   params = tuple((x, ty_sexp(ty), tuple(dims), tuple(expr_sexp(e) for e in flatten_pattern(init, dims, m['line'])))
@@ -519,7 +523,29 @@ def module_sexp(m):
     elif it[0] == 'ff': items.append(('ff', it[1], it[2], stmt_sexp(it[3])))
     elif it[0] == 'assign': items.append(('assign', expr_sexp(it[1]), expr_sexp(it[2])))
     elif it[0] == 'inst': items.append(('inst', it[1], it[2], tuple((p, expr_sexp(e)) for p, e in it[3])))
-  return ('module', m['name'], ('ports',) + ports, ('decls',) + decls, ('params',) + params, ('items',) + tuple(items))
+  core = ('module', m['name'], ('ports',) + ports, ('decls',) + decls, ('params',) + params, ('items',) + tuple(items))
+  sg = [x for x in m.get('signed', ()) if x not in (unsigned_view or ())]
+  return core + (('signed',) + tuple(sg),) if sg else core
 
-def design_sexp(parsed):
-  return ('design',) + tuple(module_sexp(m) for m in parsed.modules)
+def design_sexp(parsed, unsigned_view=None):
+  """unsigned_view: {module name: names} of signed variables to be read as unsigned vectors (diagnosis only)"""
+  uv = unsigned_view or {}
+  return ('design',) + tuple(module_sexp(m, uv.get(m['name'])) for m in parsed.modules)
+
+def loop_index_variables(m):
+  """names of the module-level variables that are the index of some `for` statement of the module (text only)"""
+  out = set()
+  def walk(s):
+    k = s[0]
+    if k == 'block':
+      for x in s[1]: walk(x)
+    elif k == 'if':
+      walk(s[2])
+      if s[3] is not None: walk(s[3])
+    elif k == 'for':
+      if not s[1]: out.add(s[2])
+      walk(s[6])
+  for it in m['items']:
+    if it[0] == 'comb': walk(it[2])
+    elif it[0] == 'ff': walk(it[3])
+  return out
